@@ -7,6 +7,55 @@ import BumpProof.Lemmas.CollPrim
 
 namespace Coll
 
+/-! ## facts about the list-level function -/
+
+theorem retainTail_escaped (bombs : List Id) (rest : List Id) :
+    ∀ kept o, (retainTail bombs kept rest o).escaped = [] := by
+  induction rest with
+  | nil => intro kept o; rfl
+  | cons x rest ih =>
+    intro kept o
+    match o with
+    | [] => rfl
+    | .panic :: o => rfl
+    | .ret b :: o =>
+      simp only [retainTail]
+      split
+      · split
+        · rfl
+        · exact ih kept o
+      · exact ih _ o
+
+/-- nothing is lost, nothing is duplicated: survivors and dropped values together are the input -/
+theorem retainTail_perm (bombs : List Id) (rest : List Id) :
+    ∀ kept o, ((retainTail bombs kept rest o).final ++ (retainTail bombs kept rest o).dropped).Perm (kept ++ rest) := by
+  induction rest with
+  | nil => intro kept o; simp [retainTail]
+  | cons x rest ih =>
+    intro kept o
+    match o with
+    | [] => simp [retainTail]
+    | .panic :: o => simp [retainTail]
+    | .ret b :: o =>
+      simp only [retainTail]
+      split
+      · split
+        · simp only [List.append_assoc]
+          exact List.Perm.append_left kept (List.perm_append_singleton x rest)
+        · have := ih kept o
+          simp only
+          refine List.Perm.trans ?_ (List.Perm.trans (List.Perm.cons x this) ?_)
+          · exact List.perm_middle
+          · exact List.perm_middle.symm
+      · have := ih (kept ++ [x]) o
+        simpa using this
+
+theorem retainTail_length_le (bombs : List Id) (kept rest : List Id) (o : List Outcome) :
+    (retainTail bombs kept rest o).final.length ≤ kept.length + rest.length := by
+  have := (retainTail_perm bombs rest kept o).length_eq
+  simp at this
+  omega
+
 /-- the guard of `retain` on a segmented buffer -/
 theorem retainGuard_seg {v : Vec} {kept rest : List Id} {k read write origLen : Nat} {T : List Slot}
     (hs : v.slots = I kept ++ H k ++ I rest ++ T) (hr : read = kept.length + k) (hw : write = kept.length)
@@ -92,9 +141,7 @@ theorem retainLoop_eq (bombs : List Id) (rest : List Id) :
 theorem retainScan_eq (bombs : List Id) (rest : List Id) :
     ∀ (pre : List Id) (T : List Slot) (v : Vec) (o : List Outcome),
       v.slots = I pre ++ I rest ++ T → rest ≠ [] → v.len = pre.length + rest.length →
-      (match retainScan v rest.length pre.length o with
-        | .error e => .error e
-        | .ok s => retainAfterScan bombs v v.len s) =
+      (retainScan v rest.length pre.length o).bind (retainAfterScan bombs v v.len) =
         .ok ⟨{ v with slots := I (retainTail bombs pre rest o).final ++ H (v.len - (retainTail bombs pre rest o).final.length) ++ T,
                       len := (retainTail bombs pre rest o).final.length,
                       dropLog := v.dropLog ++ (retainTail bombs pre rest o).dropped },
@@ -105,17 +152,17 @@ theorem retainScan_eq (bombs : List Id) (rest : List Id) :
     intro pre T v o hs _ hl
     have hs1 : v.slots = I pre ++ Slot.init x :: (I rest ++ T) := by simp [hs]
     have hpeek : peek v pre.length = .ok x := peek_mid hs1 (by simp)
-    have hsame : v = { v with slots := I (pre ++ x :: rest) ++ H (v.len - (pre ++ x :: rest).length) ++ T,
-                              len := (pre ++ x :: rest).length, dropLog := v.dropLog ++ [] } := by
-      cases v; simp_all
-    simp only [List.length_cons, retainScan, hpeek]
+    have hgap : v.len - (pre ++ x :: rest).length = 0 := by simp [hl]
+    have hsame := Vec.eta_seg (v := v) (s := I (pre ++ x :: rest) ++ H 0 ++ T) (n := (pre ++ x :: rest).length)
+      (by simp [hs]) (by simp [hl])
+    simp only [List.length_cons, retainScan, hpeek, Except.bind]
     match o with
-    | [] => simp only [retainAfterScan, retainTail]; rw [← hsame]
-    | .panic :: o => simp only [retainAfterScan, retainTail]; rw [← hsame]
+    | [] => simp only [retainAfterScan, retainTail, hgap, hsame]
+    | .panic :: o => simp only [retainAfterScan, retainTail, hgap, hsame]
     | .ret b :: o =>
       by_cases hb : b = 0
       · simp only [hb, ↓reduceIte, retainTail, retainAfterScan]
-        rw [dropAt_mid hs1 rfl]
+        rw [dropAt_mid hs1 (by simp)]
         simp only [Bool.not_false, Bool.true_and]
         have hs2 : I pre ++ Slot.hole :: (I rest ++ T) = I pre ++ H (0 + 1) ++ I rest ++ T := by simp
         by_cases hbomb : bombs.contains x = true
@@ -138,16 +185,17 @@ theorem retainScan_eq (bombs : List Id) (rest : List Id) :
         by_cases hr : rest = []
         · subst hr
           simp only [List.length_nil, ↓reduceIte, retainAfterScan, retainTail]
-          have hsame' : v = { v with slots := I (pre ++ [x]) ++ H (v.len - (pre ++ [x]).length) ++ T,
-                              len := (pre ++ [x]).length, dropLog := v.dropLog ++ [] } := by
-            cases v; simp_all
-          rw [← hsame']
+          have hgap' : v.len - (pre ++ [x]).length = 0 := by simp [hl]
+          have hsame' := Vec.eta_seg (v := v) (s := I (pre ++ [x]) ++ H 0 ++ T) (n := (pre ++ [x]).length)
+            (by simp [hs]) (by simp [hl])
+          simp only [hgap', hsame']
         · have hne : rest.length ≠ 0 := by simpa using hr
           simp only [hne, ↓reduceIte]
           have hs3 : v.slots = I (pre ++ [x]) ++ I rest ++ T := by simp [hs]
           have := ih (pre ++ [x]) T v o hs3 hr (by simp [hl]; omega)
           have e : pre.length + 1 = (pre ++ [x]).length := by simp
-          rw [e, this]
+          rw [e]
+          exact this
 
 /-- **refinement**: on a vector holding `xs` (any spare capacity) `retain` behaves as `retainSpec` -/
 theorem retain_eq (bombs : List Id) (v : Vec) (xs : List Id) (o : List Outcome)
@@ -159,16 +207,26 @@ theorem retain_eq (bombs : List Id) (v : Vec) (xs : List Id) (o : List Outcome)
   · have : xs = [] := List.eq_nil_of_length_eq_zero (by omega)
     subst this
     simp only [h0, ↓reduceIte, retainTail, Vec.after]
-    congr 1
-    cases v; simp_all
+    congr 2
+    have := Vec.eta_seg (v := v) (s := I [] ++ H (v.cap - ([] : List Id).length)) (n := ([] : List Id).length)
+      (by simp [hs, h0]) (by simp [h0])
+    simpa using this.symm
   · simp only [h0, ↓reduceIte]
     have hne : xs ≠ [] := by intro h; subst h; simp at hl; omega
     have := retainScan_eq bombs xs [] (H (v.cap - v.len)) v o (by simpa using hs) hne (by simp [hl])
     simp only [List.length_nil] at this
     rw [hl] at this
     rw [this]
-    simp only [Vec.after]
+    simp only [Vec.after, retainTail_escaped, List.append_nil]
+    have hle := retainTail_length_le bombs [] xs o
+    simp only [List.length_nil, Nat.zero_add] at hle
     congr 3
-    sorry
+    rw [List.append_assoc, ← H_add]
+    congr 2
+    have : v.len ≤ v.cap := by
+      have := congrArg List.length hs
+      simp [Vec.cap] at this ⊢
+      omega
+    omega
 
 end Coll
